@@ -1,15 +1,13 @@
 import XotModel.Props.C13
 open XotModel.Props
 #print axioms C13_iff
-#print axioms C13_iff_partial
-#print axioms C13_iff_fails_on_attribute_nodes
-#print axioms C13_iff_Statement_false
-#print axioms C13_abnormal_always_equal
-#print axioms C13_abnormal_vs_normal
+#print axioms C13_attribute_nodes
+#print axioms C13_namespace_nodes
 #print axioms C13_reflexive
 #print axioms C13_symmetric
 #print axioms C13_transitive
 #print axioms C13_advanced
+#print axioms C13_advanced_abnormal
 #print axioms C13_advanced_all
 #print axioms C13_ignores_declarations
 #print axioms C13_ignores_prefix
@@ -17,10 +15,7 @@ open XotModel.Props
 #print axioms C13_xpath
 #print axioms C13_xpath_other
 #print axioms C13_children
-#print axioms C13_shallow_ignore_partial
-#print axioms C13_shallow_fails_on_repeated_ignore
-#print axioms C13_shallow_wrong_true_on_repeated_ignore
-#print axioms C13_shallow_ignore_Statement_false
+#print axioms C13_shallow_ignore
 #print axioms C13_shallow
 #print axioms C13_string_value
 #print axioms C13_string_value_other
